@@ -677,6 +677,11 @@ func (p *Prog) effectsFrom(r *resolver, ci *capInfo, root *ssa.Function, cut fun
 			for _, e := range bySite[s.Instr] {
 				callees = append(callees, e.Callee.Func)
 			}
+			// synthetic wrappers (bound method values `x.m` passed as callbacks, thunks) are not part of the function set the
+			// call graph was built over: their single static call is followed directly
+			if len(callees) == 0 && s.Callee != nil && fn.Synthetic != "" {
+				callees = append(callees, s.Callee)
+			}
 			// function values handed to body-less callees
 			if s.Callee != nil && s.Callee.Blocks == nil {
 				for _, a := range s.Args() {
